@@ -49,6 +49,9 @@ var classOwners = map[string][]string{
 	"CONSUMED_ON_FAILURE": {"C04", "C14"}, "PEEK_ADVANCED": {"C04", "C14"}, "OVER_REPORT": {"C04", "C14"}, "SHORT_NO_ERROR": {"C04", "C14"},
 	"UNEXPLAINED_ERROR": {"C04", "C05", "C14"}, "WRONG_ERROR": {"C04", "C14"}, "FABRICATED_ERROR": {"C04", "C14"}, "LOSS_AT_DRAIN": {"C04", "C14"},
 	"BYTES_WITH_ERROR": {"C04", "C14"}, "NEGATIVE_ACCEPTED": {"C04", "C05", "C14"}, "SKIP_BEYOND_END": {"C04", "C14"}, "CONSUMED_NE_REPORTED": {"C04", "C14"},
+	// codec classes (C01), skip classes (C02/C08)
+	"WIRE_MISMATCH": {"C01"}, "VALUE_MISMATCH": {"C01"}, "READ_ERROR": {"C01"}, "WRITE_ERROR": {"C01"}, "CONSUMED_LEN": {"C01"}, "LENGTH_MISMATCH": {"C01"},
+	"SKIP_LEN": {"C02", "C08"}, "SKIP_BYTES": {"C02", "C08"}, "REJECTED_VALID": {"C02", "C08"}, "READ_AHEAD": {"C02", "C08"}, "SKIP_STREAM_DESYNC": {"C02"},
 	// region-list-model classes of the buffered writer
 	"SINK_MISMATCH": {"C05", "C14"}, "SINK_NOT_PREFIX": {"C05", "C14"}, "WRITTENLEN": {"C05", "C14"}, "REGION_LEN": {"C05", "C14"},
 	"ERR_NOT_RETURNED": {"C05", "C14"}, "ERR_NOT_STICKY": {"C05", "C14"}, "TARGET_MISMATCH": {"C05", "C14"}, "WRITEBINARY_SHORT": {"C05", "C14"},
